@@ -47,9 +47,9 @@ struct Handle {
     thread: Option<std::thread::JoinHandle<()>>,
 }
 
-fn spawn_actor(archive_dir: &Path, spec: &ActorSpec) -> Handle {
+fn spawn_actor(archive_dir: &Path, spec: &ActorSpec, faults: Vec<crate::icept::FaultSpec>) -> Handle {
     let gate = Arc::new(Gate::default());
-    let ic = Icept::with_gate(IceptConfig::default(), gate.clone());
+    let ic = Icept::with_gate(IceptConfig { faults, ..Default::default() }, gate.clone());
     let done: Arc<Mutex<Option<(String, Vec<String>)>>> = Arc::new(Mutex::new(None));
     let (ic2, done2, gate2) = (ic.clone(), done.clone(), gate.clone());
     let archive_dir = archive_dir.to_path_buf();
@@ -163,8 +163,13 @@ impl Handle {
 /// Run two actors under a schedule (false = A moves, true = B moves; turns of a finished actor
 /// are skipped); afterwards A runs to completion, then B.
 pub fn run_schedule(archive_dir: &Path, a: &ActorSpec, b: &ActorSpec, schedule: &[bool]) -> (RunResult, RunResult) {
-    let ha = spawn_actor(archive_dir, a);
-    let hb = spawn_actor(archive_dir, b);
+    run_schedule_with_faults(archive_dir, a, b, schedule, vec![], vec![])
+}
+
+/// The same with storage faults injected into either actor's own transport (the other actor does not see them).
+pub fn run_schedule_with_faults(archive_dir: &Path, a: &ActorSpec, b: &ActorSpec, schedule: &[bool], faults_a: Vec<crate::icept::FaultSpec>, faults_b: Vec<crate::icept::FaultSpec>) -> (RunResult, RunResult) {
+    let ha = spawn_actor(archive_dir, a, faults_a);
+    let hb = spawn_actor(archive_dir, b, faults_b);
     // both park before their first operation
     ha.wait_parked_or_done();
     hb.wait_parked_or_done();
